@@ -219,12 +219,23 @@ def rule_chain(check):
         for i, getter, adder in ((4, "get_source", "add_source"), (5, "get_name", "add_name")):
             uses = [(ug, x) for ug in flat for x in hir.calls_in(ug.body, name=adder)]
             src_ok = bool(uses)
+            from ..xformrules import deep_origins as _deep
             for ug, x in uses:
                 # the value added comes from the looked-up token's getter: directly, through a local, or
                 # through a memoising helper that hands its key to the adding callback
+                os_ = _deep(prog, pv, ug, hir.call_args(x)[1])
                 roots = _root_calls(prog, pv, ug, hir.call_args(x)[1])
                 direct = getter in roots
-                if not direct:
+                # ... and that getter is the *token's* (a map-level `get_source(i)` names a source that the
+                # token at hand may not have)
+                for r_, p_ in os_:
+                    if r_[0] == "call" and r_[1].split("::")[-1] == getter:
+                        gf = prog.by_def.get(r_[2])
+                        node = gf.by_id(r_[3]) if gf is not None else None
+                        recv = hir.call_args(node)[0] if node is not None and hir.call_args(node) else None
+                        if recv is None or "lookup_token" not in _root_calls(prog, pv, gf, recv):
+                            direct = False
+                if not direct and getter not in roots:
                     # callback parameter: the key handed to the helper that calls the callback
                     fn_getters = {m.get("method") for fg in flat for m in fg.nodes() if m.get("k") == "MethodCall" and m.get("method") == getter and "lookup_token" in _root_calls(prog, pv, fg, m["recv"])}
                     direct = bool(fn_getters) and all(str(r).startswith(("closure_param", "param")) or r in ("unwrap",) for r in roots)
